@@ -192,9 +192,13 @@ def c14(run):
         run.count('split dispatchers', ns)
         run.count('leaf dispatchers', nl)
         check_access(run, F, 'C14.d')
-        check_initial_request(run, F, 'C14.c')
         facts.drop(F)
         cfgmod.clear_cache()
+    # C14.c on the interpreted program (whatever functions the activation / processing code is split into): with nothing accepted the
+    # state entered at activation is prong 0 -- the first declared state --, and a surviving request for id k enters exactly prong k
+    from rules import flow_rules
+    flow_rules.flow_obligations(run, {'C02.d'}, cfgs=cfgs)
+    run.relabel('C02.d', 'C14.c')
     run.floor('C14.b', 300)
     run.floor('C14.c', 3)
     run.floor('C14.d', 6)
